@@ -346,7 +346,7 @@ PROPS["C08"] = {
     "exhaustive": {"quick": False, "thorough": False},
     "trusted_base": ["pty harness (quiescence detection through /proc, one key press at a time) and diff",
                      "scripted helpers are functions of the text (same table on both sides)"],
-    "unproved": ['C08_abort_restores_statement'],
+    "unproved": ['C08_abort_restores_statement (undo-stack clause too strong in vi mode; line and cursor proved: C08_abort_restores)'],
     "level_text": "Lean theorems: a successful search step of the model shows a stored entry containing the text at the cursor, nearest in the search direction (corollary of the C09 theorems); a failed step means no entry on that side matches; the oracle's search function equals the model's (Spec.find = MemHist.search). The editor model is diffed against the real editor; the search-loop spec machine runs as oracle over the implementation's callbacks. Proved by a loop invariant over searchLoop for all key sequences: whenever the search ends without handing a command back (C-g), text and cursor are exactly those from before the search (C08_abort_restores; growable buffer). Partial: the undo-stack clause of the first-draft statement is kept as C08_abort_restores_statement: it is too strong in vi mode with a key custom-bound to Abort (leaving insert mode closes an undo group below the mark); transparency of the undo log is checked by the C05/C14 oracles.",
     "level_note": 'Trusted: Lean kernel; pty harness; str::find as naive search (C09).',
     "assumptions": ["keyseq_timeout = None (default)"],
@@ -360,7 +360,7 @@ PROPS["C14"] = {
     "exhaustive": {"quick": False, "thorough": False},
     "trusted_base": ["pty harness (quiescence detection through /proc, one key press at a time) and diff",
                      "scripted helpers are functions of the text (same table on both sides)"],
-    "unproved": ['C14_abort_restores_statement'],
+    "unproved": ['C14_abort_restores_statement (needs a growable buffer; proved with it: C14_abort_restores)', 'C14_undo_after_accept_statement (false in vi insert mode: C14_undo_after_accept_statement_false; emacs mode proved: C14_undo_after_accept, C14_undo_after_accept_cursor)'],
     "level_text": "Lean theorems about the circular index arithmetic of the model (stays in range, k Tabs show candidate k mod (n+1), Shift-Tab is the inverse permutation) and the span-only shape of what is shown; the editor model is diffed against the real editor; the completion spec machine runs as oracle over the implementation's callbacks. Proved by a loop invariant over completeCircular for all candidate lists, start offsets, numbers of Tab / Shift-Tab presses and keys decoded in between: whenever circular completion ends without handing a command back (Esc / C-g, or no candidates) text and cursor are exactly those from before (C14_abort_restores; growable buffer — the first-draft statement without that hypothesis is kept as C14_abort_restores_statement with the reason, C14_update_truncates_fixed_buffer). Partial: undo-log transparency of abort/accept is checked by the oracle, not proved; the paging dialogue is correspondence-checked only.",
     "level_note": 'Trusted: Lean kernel; pty harness; completers reporting start > cursor are excluded (helper bug).',
     "assumptions": ["keyseq_timeout = None (default)"],
@@ -643,7 +643,8 @@ PROPS["C04"] = {
                       "C04_moveToLineDown_column, C04_vertical_column; a wide cluster straddling the column is stepped over). indent, edit_word, "
                       "transpose_chars are checked by the oracle on the implementation only. Known finding: vi `e` with count > 1.",
         "unproved": ["C04_word_target_beforeEnd_statement (refuted: C04_word_target_beforeEnd_counterexample, pinned by test::vi_cmd::e)",
-                     "C04_char_search_statement (refuted for an unstable lawful segmenter: C04_char_search_counterexample; proved for stable ones)"],
+                     "C04_char_search_statement (refuted for an unstable lawful segmenter: C04_char_search_counterexample; proved for stable ones)",
+                     "C04_char_search_total_statement (the strict reading 'no n-th occurrence, no motion' is refuted: the code clamps to the last occurrence, C04_char_search_clamped; reading decision in DESIGN 7.1)"],
         "assumptions": [],
     }
 
